@@ -24,15 +24,31 @@ P = {
  "C12": (False, "", "", "", "5/C12"),
  "C13": (False, "", "", "", "5/C13"),
  "C14": (False, "", "", "", "5/C14"),
- "C15": (False, "", "", "", "5/C15"),
+ "C15": (True,
+         'runtime monitors: differential lookup-vs-reference-table check, header-word bijection sweep (all 2^32 words in the thorough tier), concurrent lookup/overwrite workload under the Go race detector',
+         'The real registry is enumerated (through the verif hook) and every name, case variant and mask setting is looked up and compared with an independently transcribed OF1.3.5/OVS width table; the header pack/unpack inverse is executed over millions of words (all 2^32 in the thorough tier); independence of lookup results is exercised by 2..64 goroutines that overwrite every field of their results while the race detector watches and the stored entries are compared with a snapshot.',
+         'Trusts the reference width table (SPEC_NOTES.md section D) and the race detector. Names registered but absent from the reference are reported inconclusive. Schedules are those the Go scheduler produced in the run.',
+         "5/C15"),
  "C16": (True,
          "runtime monitor: exhaustive sweep of the real range helpers against a closed-form oracle",
          "Every one of the 528 ranges and 65536 offset/width pairs is executed against the real code and compared with a closed-form oracle (mask, word, accessors, both constructors, register match-field bytes); the space is finite and swept completely on every run, so for this property exploration is exhaustive.",
          "Trusts the closed-form oracle (64-bit arithmetic) and, for the unexported encode/decode helpers, the add-only verif hook that re-exports them.",
          "5/C16"),
- "C17": (False, "", "", "", "5/C17"),
- "C18": (False, "", "", "", "5/C18"),
- "C19": (False, "", "", "", "5/C19"),
+ "C17": (True,
+         'runtime monitor: differential check of the real builder against an independent big-integer placement model over generated windows, values, types and calling conventions',
+         "All 528 windows of all 16 registers (exhaustively) and edge/PRNG/beyond-field windows of every other fixed-width field are passed to the real generic builder with in-range and out-of-range values in every supported Go type; the result (error or bytes) is compared with a big-integer model, with the dedicated register constructor, and the caller's arguments are compared before/after.",
+         'Trusts the big-integer model and the reference width table; the one-argument calling convention is only checked for safety (its window is not defined by the property).',
+         "5/C17"),
+ "C18": (True,
+         'runtime monitor: exhaustive enumeration of builder states/transitions against a last-call-per-flag reference model',
+         'All 6561 x 16 state transitions and all call sequences of length <= 4 are executed on the real builder and the encoded ct_state match field is compared with the reference model after every call; longer PRNG sequences add depth. The finite families are swept completely on every run.',
+         'Trusts the 10-line reference model and the OVS bit positions; observes only the encoded field (what a switch would see).',
+         "5/C18"),
+ "C19": (True,
+         'runtime monitor: write/read-back symmetry and alignment invariants asserted on generated operation sequences and all slicing offsets',
+         'PRNG sequences of typed writes are replayed through the real encoder and read back through the real decoder while value, order, offset advance and alignment invariants are asserted; every base/inner offset 0..63 with nested sliced decoders is enumerated; the header decoder is run on every input length 0..16.',
+         'Trusts encoding/binary as the byte-order oracle.',
+         "5/C19"),
 }
 
 checks = []
